@@ -70,6 +70,8 @@ def _worker(pid, tier, jobs, timeout_s, want_samples):
     from cryosim import core
     prop = _PROP_CACHE.get(pid) or load_prop(pid)
     out = []
+    if os.environ.get("CRYOSIM_SELFTEST_WORKER_FAILURE"):      # self-test of the failure path only (bin/selftest)
+        raise core.HarnessError("injected worker failure")
     for seed, faulty in jobs:
         try:
             r = core.run_seed(prop, seed, tier, faulty, keep_trace=want_samples and len(out) < 1)
@@ -90,6 +92,7 @@ def _worker(pid, tier, jobs, timeout_s, want_samples):
     return out
 
 
+_ABANDONED_POOL = []   # non-empty: leave through os._exit (interpreter shutdown would join the pool's threads)
 _PROP_CACHE = {}
 _HISTORY = []   # every (seed, faulty) this worker process has executed so far, in order
 
@@ -105,20 +108,25 @@ def run_batch(pid, tier, jobs, workers, chunk, timeout_s, wall_cap):
     chunks = [jobs[i:i + chunk] for i in range(0, len(jobs), chunk)]
     results = [None] * len(chunks)
     t0 = time.monotonic()
-    with ProcessPoolExecutor(max_workers=workers, mp_context=ctx) as ex:
-        futs = {ex.submit(_worker, pid, tier, c, timeout_s, i < 3): i for i, c in enumerate(chunks)}
-        try:
-            for fut in as_completed(futs, timeout=wall_cap):
-                results[futs[fut]] = fut.result()
-        except Exception:
-            for f in futs:
-                f.cancel()
-            for p in list(getattr(ex, "_processes", {}).values()):
-                try:
-                    p.kill()
-                except Exception:
-                    pass
-            raise
+    ex = ProcessPoolExecutor(max_workers=workers, mp_context=ctx)
+    futs = {ex.submit(_worker, pid, tier, c, timeout_s, i < 3): i for i, c in enumerate(chunks)}
+    try:
+        for fut in as_completed(futs, timeout=wall_cap):
+            results[futs[fut]] = fut.result()
+    except BaseException:
+        # a worker raised (harness error), died or ran into the wall cap: never wait for the pool - joining an
+        # executor whose workers were killed can block forever; the caller reports exit 2 and leaves via os._exit
+        for f in futs:
+            f.cancel()
+        for p in list((getattr(ex, "_processes", None) or {}).values()):
+            try:
+                p.kill()
+            except Exception:
+                pass
+        ex.shutdown(wait=False, cancel_futures=True)
+        _ABANDONED_POOL.append(ex)
+        raise
+    ex.shutdown(wait=True)
     out = []
     for r in results:
         out.extend(r)
@@ -444,4 +452,11 @@ def main():
 
 
 if __name__ == "__main__":
-    sys.exit(main())
+    rc = main()
+    if _ABANDONED_POOL:
+        sys.stdout.flush()
+        sys.stderr.flush()
+        import shutil
+        shutil.rmtree(os.environ.get("CRYOSIM_SCRATCH_BASE", "/nonexistent"), ignore_errors=True)
+        os._exit(rc if rc else 2)
+    sys.exit(rc)
